@@ -241,7 +241,7 @@ func schedxMain(args []string) int {
 	}
 	sort.Strings(out.Outcomes)
 	data, _ := json.Marshal(&out)
-	os.Stdout.Write(data)
+	emitResult(data)
 	return 0
 }
 
